@@ -27,13 +27,17 @@ pub enum Case {
         second: u32,
         /// fraction of a second in [0.02, 0.98]
         frac: F,
-        /// whole days added to the hour value (-1, 0, 1): negative and >= 24 h intermediate hours
+        /// whole days added to the hour value (-3..=3): negative and >= 24 h intermediate hours, several wraps away
         wrap: i8,
         /// minute offset configured for the prayer; the hour passed is pre-compensated so that the unrounded time is `second`
         offset: F,
     },
     /// end to end through prayer_times_dt
     EndToEnd { site: Site, spec: ParamSpec, date: NaiveDate },
+    /// an hour value within a few ulps of a multiple of 24 (the wrap of the conversion): `ulps` steps away from
+    /// `24 * wrap`, offset 0. Either side of the wrap is acceptable; what is asserted is a valid time within a
+    /// minute of midnight and no panic.
+    WrapEdge { mode: u8, prayer: u8, wrap: i8, ulps: i8 },
 }
 
 const MODES: [Mode; 4] = [Mode::None, Mode::Normal, Mode::Special, Mode::Aggressive];
@@ -119,11 +123,13 @@ impl Prop for C11 {
             1u8..7,
             second,
             0.02..=0.98f64,
-            -1i8..=1,
+            -3i8..=3,
             prop_oneof![2 => Just(0.0), 2 => -1500.0..=1500.0f64, 1 => (-1500..=1500i32).prop_map(|x| x as f64)],
         )
             .prop_map(|(mode, prayer, second, frac, wrap, offset)| Case::Hook { mode, prayer, second, frac: F(frac), wrap, offset: F(offset) });
-        let spec = (0u8..9, minutes_opt(1500.0), prop_oneof![Just(gen::P_NONE), Just(gen::P_NGD_FI_INV), Just(gen::P_7N_ALWAYS)]).prop_map(
+        // any parameter set: the full product of C07 (angles, real-valued Fajr/Isha/Imsaak intervals, 7 offsets, schools,
+        // all 15 policies) in half of the cases, a plain method with offsets in the other half
+        let plain = (0u8..9, minutes_opt(1500.0), prop_oneof![Just(gen::P_NONE), Just(gen::P_NGD_FI_INV), Just(gen::P_7N_ALWAYS)]).prop_map(
             |(method, minutes, policy)| {
                 let mut s = ParamSpec::plain(method);
                 s.minutes = minutes;
@@ -131,8 +137,10 @@ impl Prop for C11 {
                 s
             },
         );
+        let spec = prop_oneof![1 => plain, 1 => super::c07::full_spec()];
         let e2e = (gen::site(62.0, 6.0), spec, gen::date()).prop_map(|(site, spec, date)| Case::EndToEnd { site, spec, date });
-        prop_oneof![2 => hook, 3 => e2e].boxed()
+        let edge = (0u8..4, 1u8..7, -2i8..=3, -6i8..=6).prop_map(|(mode, prayer, wrap, ulps)| Case::WrapEdge { mode, prayer, wrap, ulps });
+        prop_oneof![20 => hook, 30 => e2e, 1 => edge].boxed()
     }
     fn check(&self, c: &Case, st: &mut Stats) -> Result<(), Failure> {
         match c {
@@ -142,6 +150,41 @@ impl Prop for C11 {
                     st.nontrivial(c);
                 }
                 st.class("generated_hook_case");
+                Ok(())
+            }
+            Case::WrapEdge { mode, prayer, wrap, ulps } => {
+                st.eval();
+                let mut spec = ParamSpec::plain(5);
+                spec.rounding = *mode;
+                let params = spec.build();
+                let pr = PRAYERS[*prayer as usize];
+                let base = 24.0 * *wrap as f64;
+                // step `ulps` representable values away from the multiple of 24 (around 0 the neighbours are +-tiny)
+                let hour = if base == 0.0 {
+                    *ulps as f64 * 8.9e-16
+                } else {
+                    f64::from_bits((base.to_bits() as i64 + if base > 0.0 { *ulps as i64 } else { -(*ulps as i64) }) as u64)
+                };
+                let got = match catch(|| verif_hooks::hour_to_time(&params, pr, hour)) {
+                    Ok(g) => g,
+                    Err(p) => {
+                        return Err(Failure::new(
+                            format!("rounding:hook:panic:{}", gen::ROUNDING_NAMES[*mode as usize]),
+                            "a clock time for an hour value next to a multiple of 24",
+                            format!("{} (hour value {:e} = 24*{} {:+} ulps, prayer {})", p, hour, wrap, ulps, gen::PRAYER_NAMES[*prayer as usize]),
+                        ))
+                    }
+                };
+                let d = circ_diff(gen::secs(got), 0).abs();
+                if d > 60 {
+                    return Err(Failure::new(
+                        "rounding:hook:wrap-edge",
+                        "a time within a minute of midnight for an hour value next to a multiple of 24",
+                        format!("{} for hour value {:e}", got, hour),
+                    ));
+                }
+                st.nontrivial(c);
+                st.class("hook_wrap_edge_case");
                 Ok(())
             }
             Case::EndToEnd { site, spec, date } => {
@@ -234,7 +277,7 @@ impl Prop for C11 {
                     for prayer in 1u8..7 {
                         let h = mix(&[second, mode as u64, prayer as u64, pass]);
                         let frac = 0.02 + 0.96 * ((h >> 11) as f64 / (1u64 << 53) as f64);
-                        let wrap = ((h % 3) as i8) - 1;
+                        let wrap = ((h % 7) as i8) - 3;
                         let oi = ((h >> 8) % 8) as usize;
                         let offset = if oi == 7 { ((h >> 16) % 3001) as f64 - 1500.0 } else { OFFSETS[oi] };
                         hook_eval(mode, prayer, second as u32, frac, wrap, offset, st).map_err(|f| {
@@ -256,7 +299,7 @@ impl Prop for C11 {
         true
     }
     fn rule(&self) -> String {
-        "engine 1 (exhaustive over mode x prayer key x second of the day = 4 x 6 x 86,400 points per pass; quick 1 pass, thorough 5; sub-second fraction, +-24 h wrap and minute offset filled in per point from a fixed hash) through the hour_to_time hook; engine 2 generated end-to-end cases (site |lat|<=62, method, 7 minute offsets in [-1500,1500], policy None/default/seventh-of-night) comparing modes Normal/Special/Aggressive with None for all 7 entries, plus generated hook cases with arbitrary offsets. Non-trivial = unrounded second != 0 (rounding had something to decide): enumerated points counted once (first pass), generated cases by hash. `exhaustive` refers to engine 1".into()
+        "engine 1 (exhaustive over mode x prayer key x second of the day = 4 x 6 x 86,400 points per pass; quick 1 pass, thorough 5; sub-second fraction, +-24 h wrap and minute offset filled in per point from a fixed hash) through the hour_to_time hook; engine 2 generated end-to-end cases (site |lat|<=62; half with a plain method, 7 minute offsets in [-1500,1500] and policy None/default/seventh-of-night, half with the full parameter product of C07: angles, real-valued Fajr/Isha/Imsaak intervals, offsets, schools, all 15 policies) comparing modes Normal/Special/Aggressive with None for all 7 entries, plus generated hook cases with arbitrary offsets. Non-trivial = unrounded second != 0 (rounding had something to decide): enumerated points counted once (first pass), generated cases by hash. `exhaustive` refers to engine 1".into()
     }
     fn assumptions(&self) -> Vec<String> {
         vec![
